@@ -199,6 +199,18 @@ class ProxyLa:
 AXES = ("xy", "xz", "yx", "yz", "zx", "zy")
 
 
+def spellings(ax):
+    """the four case spellings of a two-letter reference-axes string, lower case first"""
+    a, b = ax
+    return (a + b, a.upper() + b, a + b.upper(), a.upper() + b.upper())
+
+
+# all 36 spellings: `poles` lower-cases its `ref_axes` argument, so each of them is legal
+# input; every one is traced separately (k_poles_xz, k_poles_Xz, k_poles_xZ, k_poles_XZ, ...)
+# and Proofs_poles_axes.v proves the 30 upper/mixed-case traces equal to the lower-case ones.
+SPELLINGS = tuple(s for ax in AXES for s in spellings(ax))
+
+
 def translations():
     import pydrex.geometry as geo
 
@@ -214,7 +226,7 @@ def translations():
     geo.__dict__["la"] = ProxyLa()
     try:
         tr.trace_all([("to_cartesian", {}), ("to_spherical", {}), ("lambert_equal_area", {})])
-        for ax in AXES:
+        for ax in SPELLINGS:
             spec = Spec(geo, "poles",
                         [("orientations", "arr", (1, 3, 3)), ("ref_axes", "const", ax),
                          ("hkl", "arr", (3,))],
@@ -222,6 +234,10 @@ def translations():
             tr.specs["poles"] = spec
             tr.ensure("poles", {})
             del tr.specs["poles"]
+        # the default arguments (ref_axes="xz", hkl=[1, 0, 0]) as the source has them
+        tr.specs["poles"] = Spec(geo, "poles", [("orientations", "arr", (1, 3, 3))], cname="k_poles_default")
+        tr.ensure("poles", {})
+        del tr.specs["poles"]
     finally:
         geo.__dict__["la"] = saved_la
     return [("Gen_geometry", tr, geo.__file__)]
